@@ -9,6 +9,11 @@ ops (one line, words separated by blanks; bytes as hex, "-" = empty):
 
   enc <v> <tracing 0|1> <stream> REQ          → hex of the frame the MODEL of the builders produces,
                                                  or rejected:<payload|keyspace|namedbatch|toobig>
+  encd <v> <tracing> <stream> REQ         → same, answered by a digest `len=<n> head=<first 40 bytes> fnv=<FNV-1a 32>`
+                                                 (for very large frames; REQ may use the compact forms
+                                                 `x<n>*<hh>` = n copies of byte hh, and `*<n> ITEM` = n copies
+                                                 of one ITEM in place of `<n> ITEM...` for values / events /
+                                                 batch entries)
   dec <framehex> <v> <tracing> <stream> REQ   → the SPEC DECODER is run on <framehex> (the bytes the real
                                                  builder produced for REQ): `ok` if it yields exactly
                                                  (v, tracing, stream, ask REQ, no rest) — maps compared as
@@ -45,15 +50,27 @@ def pBool : P Bool
   | "1" :: r => some (true, r)
   | _ => none
 
+/-- hex, or `x<n>*<hh>` = n copies of the byte hh -/
+def parseHexX (w : String) : Option Bytes :=
+  match w.toList with
+  | 'x' :: cs =>
+    match (String.ofList cs).splitOn "*" with
+    | [n, hh] =>
+      match n.toNat?, parseHex hh with
+      | some k, some [b] => some (List.replicate k b)
+      | _, _ => none
+    | _ => none
+  | _ => parseHex w
+
 def pHex : P Bytes
-  | w :: r => match parseHex w with | some b => some (b, r) | none => none
+  | w :: r => match parseHexX w with | some b => some (b, r) | none => none
   | [] => none
 
 def pOptB : P (Option Bytes)
   | w :: r =>
     if w == "n" then some (none, r)
     else match w.toList with
-      | 'v' :: cs => match parseHex (String.ofList cs) with | some b => some (some b, r) | none => none
+      | 'v' :: cs => match parseHexX (String.ofList cs) with | some b => some (some b, r) | none => none
       | _ => none
   | [] => none
 
@@ -66,10 +83,21 @@ def pRep {α : Type} (p : P α) : Nat → P (List α)
       | none => none
     | none => none
 
+/-- `<n> item*n`, or `*<n> item` = n copies of the item -/
 def pCounted {α : Type} (p : P α) : P (List α) := fun ws =>
-  match pNat ws with
-  | some (n, r) => pRep p n r
-  | none => none
+  match ws with
+  | w :: r =>
+    match w.toList with
+    | '*' :: cs =>
+      match (String.ofList cs).toNat? with
+      | some n => match p r with
+        | some (x, r') => some (List.replicate n x, r')
+        | none => none
+      | none => none
+    | _ => match pNat ws with
+      | some (n, r) => pRep p n r
+      | none => none
+  | [] => none
 
 def pVal : P GVal := fun ws =>
   match pHex ws with
@@ -192,6 +220,13 @@ def canonReq : Req → Req
 /-- the timestamp is always explicit in generated requests, so `now` is never used -/
 def now0 : Int := 0
 
+/-- FNV-1a (32 bit) -/
+def fnv (bs : Bytes) : Nat :=
+  bs.foldl (fun h b => ((h ^^^ b.toNat) * 16777619) % 4294967296) 2166136261
+
+def digest (bs : Bytes) : String :=
+  s!"len={bs.length} head={toHex (bs.take 40)} fnv={fnv bs}"
+
 def step (_ : Unit) (ws : List String) : Unit × String :=
   ((), match ws with
   | "enc" :: r =>
@@ -199,6 +234,13 @@ def step (_ : Unit) (ws : List String) : Unit × String :=
     | some ((h, g), []) =>
       match encodeReq h.v h.tracing h.stream now0 g with
       | .ok bs => toHex bs
+      | .error e => "rejected:" ++ errName e
+    | _ => "bad-op"
+  | "encd" :: r =>
+    match pHdrReq r with
+    | some ((h, g), []) =>
+      match encodeReq h.v h.tracing h.stream now0 g with
+      | .ok bs => digest bs
       | .error e => "rejected:" ++ errName e
     | _ => "bad-op"
   | "dec" :: fh :: r =>
